@@ -1,4 +1,5 @@
 import DFV.Model.Field
+import DFV.Model.Transform
 /-!
 # C18 — executable model of `discretisedfield/field_rotator.py`
 
@@ -38,6 +39,7 @@ def add (a b : V3) : V3 := ⟨a.x + b.x, a.y + b.y, a.z + b.z⟩
 def sub (a b : V3) : V3 := ⟨a.x - b.x, a.y - b.y, a.z - b.z⟩
 def smul (s : Rat) (a : V3) : V3 := ⟨s * a.x, s * a.y, s * a.z⟩
 def dot (a b : V3) : Rat := a.x * b.x + a.y * b.y + a.z * b.z
+def cross (a b : V3) : V3 := ⟨a.y * b.z - a.z * b.y, a.z * b.x - a.x * b.z, a.x * b.y - a.y * b.x⟩
 end V3
 
 /-- 3×3 matrix by rows -/
@@ -80,10 +82,49 @@ def ofQuat (w x y z : Rat) : M3 :=
    ⟨2 * (x*z - w*y) / (w*w + x*x + y*y + z*z), 2 * (y*z + w*x) / (w*w + x*x + y*y + z*z),
      (w*w - x*x - y*y + z*z) / (w*w + x*x + y*y + z*z)⟩⟩
 
+/-- matrix from its entries -/
+def ofFn (e : Nat → Nat → Rat) : M3 :=
+  ⟨⟨e 0 0, e 0 1, e 0 2⟩, ⟨e 1 0, e 1 1, e 1 2⟩, ⟨e 2 0, e 2 1, e 2 2⟩⟩
+
+/-- scipy `from_mrp(p)` (modified Rodrigues parameters `p = n·tan(θ/4)`): the rotation of the
+quaternion `(1 − |p|²) + 2p`; rational for every rational `p` -/
+def ofMrp (p : V3) : M3 := ofQuat (1 - p.dot p) (2 * p.x) (2 * p.y) (2 * p.z)
+
+/-- `rotate("align_vector", initial=i, final=f)`: `fixed = np.cross(i, f)` and
+`Rotation.align_vectors([f, fixed], [i, fixed])` — the rotation about `i × f` that takes `i` to
+`f`.  For `|i| = |f|` (the exact regime; in general `|i|·|f|` needs a square root) it is the
+rotation of the half-angle quaternion `(i·i + i·f) + i × f`. -/
+def ofAlign (i f : V3) : M3 := ofQuat (i.dot i + i.dot f) (i.cross f).x (i.cross f).y (i.cross f).z
+
 def ofRows (l : List (List Rat)) : M3 :=
   ⟨V3.ofList (l.getD 0 []), V3.ofList (l.getD 1 []), V3.ofList (l.getD 2 [])⟩
 def toRows (Q : M3) : List (List Rat) := [Q.r0.toList, Q.r1.toList, Q.r2.toList]
 end M3
+
+/-! ## exact quarter turns (the lattice rotations of C12 as matrices) -/
+
+/-- rotation in the plane of axes `p`, `q` with cosine `c` and sine `s` (from `p` towards `q`) -/
+def Rcs (p q : Nat) (c s : Rat) : M3 :=
+  M3.ofFn fun i j =>
+    if i = p ∧ j = p then c else if i = p ∧ j = q then -s
+    else if i = q ∧ j = p then s else if i = q ∧ j = q then c
+    else if i = j then 1 else 0
+
+/-- the quarter turn `k · 90°` in the plane of axes `p`, `q`: the matrix of C12's
+`rotate90(dims[p], dims[q], k)` -/
+def Rq (p q : Nat) (k : Int) : M3 := Rcs p q (T.cosq k) (T.sinq k)
+
+/-- right-handed rotation about coordinate axis `a` by `k` quarter turns
+(`from_rotvec(k·π/2·e_a)`, `from_euler("xyz"[a], k·π/2)`) -/
+def Raxis (a : Nat) (k : Int) : M3 := Rq ((a + 1) % 3) ((a + 2) % 3) k
+
+/-- scipy `from_euler(seq, angles)` for quarter-turn angles: lower-case sequences are
+extrinsic (each rotation about the fixed axes, applied in order: later on the left), upper-case
+intrinsic (about the carried axes: later on the right) -/
+def eulerQ (intrinsic : Bool) : List (Nat × Int) → M3
+  | [] => M3.one
+  | (a, k) :: rest =>
+    if intrinsic then (Raxis a k).mul (eulerQ intrinsic rest) else (eulerQ intrinsic rest).mul (Raxis a k)
 
 /-! ## geometry of the rotated mesh (`_calculate_new_region`, `_calculate_new_n`) -/
 
@@ -145,6 +186,15 @@ def ordFor (f : Fld) : M (List Nat) :=
 /-- `ordered_idx.argsort()[c]` for a permutation: the position holding `c` -/
 def invAt (ord : List Nat) (c : Nat) : Nat :=
   if ord.getD 0 0 = c then 0 else if ord.getD 1 0 = c then 1 else 2
+
+/-- `np.argsort` on a short list (code-shaped: indices sorted by key, insertion sort; for the
+distinct keys of a permutation every sorting algorithm returns the same) -/
+def argsortL (l : List Nat) : List Nat :=
+  (List.range l.length).foldl (fun acc i => insertBy l i acc) []
+where
+  insertBy (l : List Nat) (i : Nat) : List Nat → List Nat
+    | [] => [i]
+    | j :: js => if l.getD i 0 < l.getD j 0 then i :: j :: js else j :: insertBy l i js
 
 /-- one cell value: `R.apply(v[ordered_idx])[argsort(ordered_idx)]`; scalars untouched -/
 def rotVal (nvdim : Nat) (R : M3) (ord : List Nat) (v : List Rat) : List Rat :=
@@ -276,6 +326,8 @@ structure Rotator where
 inductive Op where
   | rotate (Q : M3) (n : Option (List Nat))
   | clear
+  /-- `rotate` with a method name outside the list: refused before anything is touched -/
+  | unknown
 
 /-- `FieldRotator.__init__` -/
 def init? (f : Fld) : M Rotator :=
@@ -295,6 +347,7 @@ def step (s : Rotator) : Op → Rotator × Option Err
     | .ok g => ({ s with rot := Q.mul s.rot, cur := g }, none)
     | .error e => ({ s with rot := Q.mul s.rot }, some e)
   | .clear => ({ s with rot := M3.one, cur := s.orig }, none)
+  | .unknown => (s, some .value)
 
 /-- a history of calls (a raising call is caught by the caller and the object used on) -/
 def run (s : Rotator) : List Op → Rotator
@@ -313,6 +366,7 @@ def seg : List M3 → List Op → List M3
   | cur, [] => cur
   | cur, .rotate Q _ :: ops => seg (cur ++ [Q]) ops
   | _, .clear :: ops => seg [] ops
+  | cur, .unknown :: ops => seg cur ops
 
 /-- distance (in cells) of a back-rotated centre from the inside/outside faces of the
 padded box — the boundary comparator's margin -/
